@@ -66,6 +66,20 @@ func checkMemoHashEq(c *Ctx, rule string, p *packages.Package) {
 			continue
 		}
 		c.Analysed(p.Types.Path() + "." + pr.hash.Name())
+		// an equality that compares hashes is no equality: the hash is a 64-bit digest (and here writes the elements one after
+		// another without a separator), so different keys compare equal and share one table entry
+		callsHash := token.NoPos
+		ast.Inspect(ed.Body, func(n ast.Node) bool {
+			if call, ok := n.(*ast.CallExpr); ok && objOf(info, call.Fun) == types.Object(pr.hash) {
+				callsHash = call.Pos()
+			}
+			return true
+		})
+		if callsHash != token.NoPos {
+			c.Fail(rule, key, callsHash, "the equality function of the table is computed from the hash function: keys whose hashes collide (the digest writes the alternatives back to back, so {a b}, {a, b} and {ab}, or {x} and {x, ε}, are fed the same bytes) are taken for the same key, and two different sub-expressions share one synthesised non-terminal",
+				`first = ("a" "b") "x"  together with  second = ("a" | "b") "y"  in one specification`)
+			continue
+		}
 		// is the equality a set equality?
 		eparams := map[types.Object]bool{}
 		for _, f := range ed.Type.Params.List {
